@@ -150,7 +150,7 @@ _hist("C02", [{"name": "balloons", "pkg": RESMGR, "run": "^TestVerifC02$", "repl
       "non-trivial = at least two user-defined balloons were non-empty at once and the history contained both an inflate and a deflate (or balloon deletion)")
 def _add_unit(prop, unit):
     PROPS[prop]["units"].append(unit)
-_add_unit("C05", {"name": "balloons-histories", "pkg": RESMGR, "run": "^TestVerifC05Balloons$", "replay_run": "^TestVerifC05BalloonsReplay$", "q": 200, "t": 40000, "per_proc": 500})
+_add_unit("C05", {"name": "balloons-histories", "pkg": RESMGR, "run": "^TestVerifC05Balloons$", "replay_run": "^TestVerifC05BalloonsReplay$", "q": 300, "t": 40000, "per_proc": 500})
 _add_unit("C04", {"name": "balloons-memory", "pkg": RESMGR, "run": "^TestVerifC04Balloons$", "replay_run": "^TestVerifC04BalloonsReplay$", "q": 200, "t": 40000, "per_proc": 500})
 _add_unit("C09", {"name": "balloons-leaks", "pkg": RESMGR, "run": "^TestVerifC09Balloons$", "replay_run": "^TestVerifC09BalloonsReplay$", "q": 200, "t": 40000, "per_proc": 500})
 _add_unit("C12", {"name": "balloons-optouts", "pkg": RESMGR, "run": "^TestVerifC12Balloons$", "replay_run": "^TestVerifC12BalloonsReplay$", "q": 350, "t": 40000, "per_proc": 500})
